@@ -3,6 +3,7 @@
 from __future__ import annotations
 
 from typing import TYPE_CHECKING
+from typing import Any
 
 from sqlalchemy import create_engine
 from sqlalchemy.orm import DeclarativeBase
@@ -50,27 +51,35 @@ def create_database(url: str) -> None:
     DatabaseSession.configure(bind=engine)
 
 
-def _create_or_update_state(first_key: str, second_key: str, hash_: str) -> None:
-    """Create or update a state."""
-    with DatabaseSession() as session:
-        state_in_db = session.get(State, (first_key, second_key))
-        if not state_in_db:
-            session.add(State(task=first_key, node=second_key, hash_=hash_))
-        else:
-            state_in_db.hash_ = hash_
-        session.commit()
+def _create_or_update_state(
+    session: Any, first_key: str, second_key: str, hash_: str
+) -> None:
+    """Create or update a state within the given database session."""
+    state_in_db = session.get(State, (first_key, second_key))
+    if not state_in_db:
+        session.add(State(task=first_key, node=second_key, hash_=hash_))
+    else:
+        state_in_db.hash_ = hash_
 
 
 def update_states_in_database(session: Session, task_signature: str) -> None:
-    """Update the state for each node of a task in the database."""
+    """Update the state for each node of a task in the database.
+
+    All states of one task are written in a single transaction. If the process is
+    interrupted, either all or none of them are recorded, so the recorded states of a
+    task always describe one consistent snapshot of its dependencies and products.
+
+    """
     # A dry-run must not record anything; otherwise a persisted task would be treated
     # differently by the next build.
     if session.config.get("dry_run"):
         return
-    for name in node_and_neighbors(session.dag, task_signature):
-        node = session.dag.nodes[name].get("task") or session.dag.nodes[name]["node"]
-        hash_ = node.state()
-        _create_or_update_state(task_signature, node.signature, hash_)
+    with DatabaseSession() as db_session:
+        for name in node_and_neighbors(session.dag, task_signature):
+            node = session.dag.nodes[name].get("task") or session.dag.nodes[name]["node"]
+            hash_ = node.state()
+            _create_or_update_state(db_session, task_signature, node.signature, hash_)
+        db_session.commit()
 
 
 def has_node_changed(task: PTask, node: PTask | PNode, state: str | None) -> bool:
